@@ -8,7 +8,7 @@ Every step of every thread strictly decreases `meas`, a weighted count of the wo
 * a chunk on the work queue weighs 33, a chunk in a worker's hands or an item on the result queue 20;
 * the feeder, the replace thread, every worker and the consumer weigh the number of steps to the end of their current
   round (`fOff`, `rOff`, `wOff`, `pos`); a retired worker's id waiting for the replace thread weighs 7 (three steps of
-  the replace thread, four of the successor);
+  the replace thread, four of the successor); a retired worker that has still `end()` to run (`Cfg.joinTimeout`) weighs 1;
 * every call in which nothing has been emitted yet carries `procs.length + 1` for the mid-call `until_all_ready()`
   (`midB`; one wait per slot of `procs` and the step back into the result loop). -/
 namespace WindVerif.Pool
@@ -34,7 +34,8 @@ def wOff : WPc → Nat
   | .putNowait => 12
   | .lockRel => 11
   | .putBlock => 10
-  | .retire => 8
+  | .retire => 9
+  | .ending => 1
   | .exited => 0
 
 def wWeight (w : Worker) : Nat := wOff w.pc + (if w.held.isSome then 20 else 0)
